@@ -35,7 +35,7 @@ ASSUMPTIONS = ['values of interpreter-internal types (generators, method wrapper
                'exactness is claimed only for combinators calibrated silent on the unchanged tree '
                '(vf.gen.valueflow.EXACT_FORMS) with single-valued inputs',
                'names inside function bodies are not probed (context-insensitive by design of the engine)']
-SIZES = {'quick': 100, 'thorough': 1500}
+SIZES = {'quick': 100, 'thorough': 900}
 TIMEOUT = {'quick': 1200, 'thorough': 4 * 3600}
 PLAIN = {'int', 'str', 'float', 'bool', 'NoneType', 'list', 'dict', 'tuple', 'set', 'frozenset',
          'bytes', 'complex'}
